@@ -153,11 +153,20 @@ func renderSet(rs []*release.Release) string {
 const linTimeout = 30 * time.Second
 
 func runLin(res *core.Result, d caseData, verbose bool) {
-	for h := 0; h < d.N; h++ {
+	n := d.N
+	if d.Driver == "memory" {
+		// memory calls take microseconds: run many more histories, half of them straight on the
+		// driver.Memory object (no recording wrapper, no delay) so that calls really overlap
+		n *= 20
+	}
+	for h := 0; h < n; h++ {
 		w := env.NewWorld(d.Driver, "ns1")
 		w.Sim.Delay = hashDelay(d.RSeed+int64(h), 150)
 		shared := w.Driver("lin")
 		perClient := h%2 == 1
+		if d.Driver == "memory" && h%4 != 0 {
+			shared, perClient = driver.Driver(w.Mem), false
+		}
 		var mu sync.Mutex
 		var hist []porcupine.Operation
 		var wg sync.WaitGroup
